@@ -441,7 +441,10 @@ func (ega *EnhancedGroupAggregator) AddPostAggregationExpression(outputField, or
 		}
 
 		// Check if input field is an expression (contains function calls)
-		isInputExpression := strings.Contains(field.InputField, "(") && strings.Contains(field.InputField, ")")
+		// ... or arithmetic over columns (sum(v*2) + 1): without an evaluator the aggregator would look
+		// for a column literally named "v*2"
+		isInputExpression := (strings.Contains(field.InputField, "(") && strings.Contains(field.InputField, ")")) ||
+			(strings.TrimSpace(field.InputField) != "*" && strings.ContainsAny(field.InputField, "+-*/%"))
 
 		// If input expression itself contains aggregation calls, skip creating an aggregator for this field
 		// Use dynamic function registry instead of hardcoded list
